@@ -214,6 +214,13 @@ def run_property(prop, tier="quick", facts=None, quiet=False, write=True, seed=0
             "bodies_analysed": sorted(run.analysed_bodies),
             "facts": {"lib_bodies": len(facts.lib.body_list), "bin_bodies": len(facts.bin.body_list),
                       "tree_hash": extract.tree_hash(), "mir_stage": "mir_built (after_expansion), normal paths only"},
+            # how the tree was read before any rule ran: items given their rule name back (moved: 8.8b, renamed private items matched
+            # against xsvlib/baseline.json: 8.8d, renamed private fields: 8.8c) and helper bodies looked through
+            "normalisation": {"paths": [list(x) for x in getattr(facts, "renames", [])][:80],
+                              "renamed_private_items": [list(x) for x in getattr(facts, "renamed_private", [])][:80],
+                              "fields": [list(x) for x in getattr(facts, "field_renames", [])],
+                              "type_shapes": sorted(getattr(facts, "shapes", {}) or {}),
+                              "spliced": len(getattr(facts, "inlined", []))},
             "coverage_gaps": ["#[cfg(not(unix))] code in main.rs is not analysed (no non-unix target installed)",
                               "cfg(test) code is out of scope"],
             "known_findings_hit": [o.key for o in known_hits],
